@@ -147,6 +147,9 @@ pub struct SeamState {
     pub log: SeamLog,
     /// faults only fire while this is set (the prefix of a C11 scenario runs fault-free)
     pub faults_armed: bool,
+    /// Legal mode may also return points that violate a row by at most 1e-7 (absolute): correct by
+    /// the feasibility tolerance of a real backend (HiGHS default 1e-7), outside the library's 1e-8
+    pub tolerance_answers: bool,
 }
 
 pub type Seam = Rc<RefCell<SeamState>>;
@@ -179,7 +182,7 @@ fn small_dir(rng: &mut Prng, dim: usize) -> Vec<i64> {
 }
 
 /// A different correct witness for a non-empty polytope, chosen by the PRNG.
-fn legal_alternative(rng: &mut Prng, poly: &Polytope, real_w: &Array1<f64>) -> Option<(Array1<f64>, String)> {
+fn legal_alternative(rng: &mut Prng, poly: &Polytope, real_w: &Array1<f64>, tol: bool) -> Option<(Array1<f64>, String)> {
     let dim = poly.mat.ncols();
     let rows = poly_rows(poly)?;
     let wd = width(dim, &rows);
@@ -187,6 +190,11 @@ fn legal_alternative(rng: &mut Prng, poly: &Polytope, real_w: &Array1<f64>) -> O
         return None;
     }
     let center = wd.center.clone();
+    if tol && rng.chance(1, 3) {
+        if let Some(p) = tolerance_point(rng, &rows, &center) {
+            return Some((p, "within_backend_tolerance_1e-7".into()));
+        }
+    }
     let to_arr = |p: &[Q]| Array1::from_vec(p.iter().map(|q| q.to_f64()).collect::<Vec<f64>>());
     let shoot = |from: &[Q], d: &[Q], frac: (i64, i64)| -> Vec<Q> {
         let lam = match ray_shoot(&rows, from, d) {
@@ -239,6 +247,43 @@ fn legal_alternative(rng: &mut Prng, poly: &Polytope, real_w: &Array1<f64>) -> O
         return Some((real_w.clone(), "keep_real_rounding".into()));
     }
     Some((arr, label.to_string()))
+}
+
+/// A point on a facet pushed outward so that the worst row violation lies in (1.5e-8, 1e-7]:
+/// a correct answer for a backend with primal feasibility tolerance 1e-7, rejected by the
+/// library's own `contains` (1e-8) and therefore sent through the witness repair.
+fn tolerance_point(rng: &mut Prng, rows: &[Row], center: &[Q]) -> Option<Array1<f64>> {
+    let live: Vec<&Row> = rows.iter().filter(|r| !r.is_zero_row()).collect();
+    if live.is_empty() {
+        return None;
+    }
+    let target = live[rng.below(live.len())];
+    let lam = ray_shoot(rows, center, &target.a)?;
+    let hit: Vec<Q> = center.iter().zip(&target.a).map(|(x, d)| x.add(&lam.mul(d))).collect();
+    // the row that stopped the ray
+    let stop = rows.iter().filter(|r| !r.is_zero_row()).min_by(|a, b| a.slack(&hit).cmp(&b.slack(&hit)))?;
+    let v = *rng.pick(&[2e-8, 5e-8, 9e-8]);
+    let n2: f64 = stop.a.iter().map(|q| q.to_f64() * q.to_f64()).sum();
+    if !(n2 > 0.0) || !n2.is_finite() {
+        return None;
+    }
+    let p: Vec<f64> = hit.iter().zip(&stop.a).map(|(x, a)| x.to_f64() + v / n2 * a.to_f64()).collect();
+    if p.iter().any(|x| !x.is_finite()) {
+        return None;
+    }
+    let pq: Vec<Q> = p.iter().map(|x| Q::from_f64(*x)).collect();
+    let mut worst = Q::zero();
+    for r in rows {
+        let viol = r.slack(&pq).neg();
+        if viol > worst {
+            worst = viol;
+        }
+    }
+    if worst > Q::from_f64(1.5e-8) && worst <= Q::from_f64(1e-7) {
+        Some(Array1::from_vec(p))
+    } else {
+        None
+    }
 }
 
 fn apply_fault(kind: &FaultKind, poly: &Polytope, real: &PolytopeStatus) -> PolytopeStatus {
@@ -338,6 +383,7 @@ pub fn install(mode: Mode, plan: FaultPlan, rng: Prng) -> Seam {
         rng,
         log: SeamLog::default(),
         faults_armed: true,
+        tolerance_answers: false,
     }));
     let st = state.clone();
     verif_hooks::reset_lp_calls();
@@ -354,7 +400,7 @@ pub fn install(mode: Mode, plan: FaultPlan, rng: Prng) -> Seam {
                     Mode::Real => {}
                     Mode::Legal => {
                         if let PolytopeStatus::Optimal(w) = &real_status {
-                            if let Some((alt, label)) = legal_alternative(&mut s.rng, poly, w) {
+                            if let Some((alt, label)) = { let tol = s.tolerance_answers; legal_alternative(&mut s.rng, poly, w, tol) } {
                                 returned = PolytopeStatus::Optimal(alt);
                                 action = Some(label);
                             }
